@@ -1532,4 +1532,7 @@ Qed.
    9 levels: evaluated by the driver's probe on the real code) *)
 Example cap_example :
   exists e, parse1 ex_legacy = Some e /\ too_long ex_ctx false (max_migrated_length ex_legacy) e = false.
-Proof. eexists. split; vm_compute; reflexivity. Qed.
+Proof.
+  destruct (parse1 ex_legacy) as [e|] eqn:Ep; [|vm_compute in Ep; discriminate].
+  exists e. split; [reflexivity|]. vm_compute in Ep. inversion Ep; subst e. vm_compute. reflexivity.
+Qed.
